@@ -227,16 +227,20 @@ Section Exec.
           let '(c2, s2) :=
             match c1 with
             | Raising e =>
-                match find (fun h => catches (fst h) e) hs with
-                | Some h =>
-                    (* the `except ...:` line: a boundary inside the handler, before its first statement *)
-                    match landing s1 with
-                    | LWTE => (Raising EWTE, note_term (tick s1))
-                    | (LKill | LKillMid) => (Killed, s1)
-                    | LNone => exec fuel' (snd h) (set_exc (tick s1) (Some e))
-                    end
-                | None => (c1, s1)
-                end
+                (* the `except ...:` clauses are tried in order; every clause that is tried is a statement boundary of its
+                   own (the match is tested on that line), whether it matches or not; an exception landing there replaces
+                   the one in flight and is not caught by this try statement any more *)
+                (fix try_handlers (hs : list (list xcls * stm)) (s : cs) : completion * cs :=
+                   match hs with
+                   | [] => (Raising e, s)
+                   | h :: r =>
+                       match landing s with
+                       | LWTE => (Raising EWTE, note_term (tick s))
+                       | (LKill | LKillMid) => (Killed, s)
+                       | LNone => if catches (fst h) e then exec fuel' (snd h) (set_exc (tick s) (Some e))
+                                  else try_handlers r (tick s)
+                       end
+                   end) hs s1
             | _ => (c1, s1)
             end in
           match c2 with
